@@ -1,1 +1,179 @@
-CHECKS = {}
+"""Decision-table specs (spec/<T>.tla with generated wrappers <T>Design / <T>Trace, tools/mktable.py):
+   TLC checks every case against the rules under the code's decision procedure and exports the cases;
+   the Go harness (harness/tbldrv) executes each case on the real code; the monitor <T>Trace evaluates the
+   same rules on the observed outcomes."""
+import json, os, collections, time, shutil
+from vlib import *  # noqa
+
+
+def tlc_lines(path, tag):
+    """JSON payloads of the lines  <<"TAG", "json">>  in a TLC output file."""
+    pre = f'<<"{tag}", "'
+    with open(path, errors="replace") as f:
+        for line in f:
+            if line.startswith(pre):
+                try:
+                    yield json.loads(json.loads(line.rstrip("\n")[len(pre) - 1:-2]))
+                except Exception:
+                    continue
+
+
+def table_run(pid, module, sub, tier, seed, wd, prefixes, sig, need=None, binp=None, harness_args=(), label=None):
+    """One decision-table pipeline. Returns dict(design, cases, viols, divergences, obs_summary)."""
+    label = label or module
+    d = tlc(wd, f"{module}Design.tla", cfg=f"{module}Design_{tier}.cfg", timeout=3600, outfile=f"{module}.design.out")
+    n = 0
+    with open(os.path.join(wd, f"{module}.cases.ndjson"), "w") as o:
+        for c in tlc_lines(os.path.join(wd, f"{module}.design.out"), "CASE"):
+            n += 1
+            c["id"] = n
+            o.write(json.dumps(c, separators=(",", ":")) + "\n")
+    if n == 0 or n != d["distinct"]:
+        raise Inconclusive(f"{module}: TLC checked {d['distinct']} cases but exported {n}")
+    log(f"[{pid}] design {module} ({tier}): {n} cases, every rule holds under the code's decision procedure ({d['wall']:.0f}s)")
+    binp = binp or go_build(wd)
+    rc, out = run([binp, sub, "-in", f"{module}.cases.ndjson", "-out", "obs.ndjson", "-seed", str(seed), "-tier", tier] + list(harness_args), wd, timeout=3600)
+    if rc != 0 or "EXECUTED" not in out:
+        raise Inconclusive(f"{sub} failed:\n" + out[-3000:])
+    shutil.copy(os.path.join(wd, "obs.ndjson"), os.path.join(wd, f"{module}.obs.ndjson"))
+    t = tlc(wd, f"{module}Trace.tla", cfg=f"{module}Trace_{tier}.cfg", timeout=3600, outfile=f"{module}.trace.out")
+    if t["distinct"] != n:
+        raise Inconclusive(f"{module}: monitor judged {t['distinct']} of {n} observations:\n" + t["out"][-1500:])
+    bad = {v["line"]: v for v in tlc_lines(os.path.join(wd, f"{module}.trace.out"), "VIOL")}
+    div = {v["line"] for v in tlc_lines(os.path.join(wd, f"{module}.trace.out"), "DIVERGE")}
+    viols, divs, cov, samples = [], [], collections.Counter(), []
+    with open(os.path.join(wd, f"{module}.obs.ndjson")) as f:
+        for i, line in enumerate(f, 1):
+            if i in bad or i in div or i <= 3 or need:
+                o = json.loads(line)
+                if need:
+                    for k in need(o):
+                        cov[k] += 1
+                if i <= 3:
+                    samples.append(dict(case=o["c"], observed=o["o"]))
+                if i in bad:
+                    for r in bad[i]["rules"]:
+                        if r.startswith(prefixes):
+                            viols.append(dict(rule=r, id=o["id"], case=o["c"], observed=o["o"], module=module, signature=f"{r}:{sig(o)}"))
+                if i in div and len(divs) < 50:
+                    divs.append(dict(id=o["id"], case=o["c"], observed=o["o"]))
+    log(f"[{pid}] {label}: {n} cases executed on the real code and judged by {module}Trace: {len(viols)} rule failures, {len(div)} design-vs-code divergences")
+    return dict(design=dict(module=module, cfg=f"{module}Design_{tier}.cfg", states=d["distinct"], transitions=d["generated"], wall=round(d["wall"], 1)),
+                cases=n, viols=viols, divergences=divs, divergences_total=len(div), coverage=dict(cov), samples=samples)
+
+
+def report_table(pid, viols, wd, seed, tier, modules):
+    files = []
+    for m in modules:
+        files += [f"{m}.cases.ndjson"]
+    new, known = report(pid, viols, lambda v: v["signature"],
+                        lambda v: dict(rule=v["rule"], module=v["module"], id=v["id"], case=v["case"], observed=v["observed"]),
+                        wd, [], seed, tier)
+    return new, known
+
+
+def save_violating_cases(pid, wd, viols, seed, tier):
+    """replay directory: the violating cases (cases.ndjson subset per module)"""
+    if not viols:
+        return None
+    d = os.path.join(VERIF, "replays", f"{pid}-{tier}-seed{seed}-{int(time.time())}")
+    os.makedirs(d, exist_ok=True)
+    by = collections.defaultdict(dict)
+    for v in viols:
+        by[v["module"]][v["id"]] = v["case"]
+    for m, cs in by.items():
+        with open(os.path.join(d, f"{m}.cases.ndjson"), "w") as f:
+            for i, c in cs.items():
+                f.write(json.dumps(dict(id=i, c=c, expect={})) + "\n")
+    return d
+
+
+def write_cases(path, viols):
+    by = collections.defaultdict(dict)
+    for v in viols:
+        if "module" in v:
+            by[v["module"]][v["id"]] = v["case"]
+    for m, cs in by.items():
+        with open(os.path.join(path, f"{m}.cases.ndjson"), "w") as f:
+            for i, c in cs.items():
+                f.write(json.dumps(dict(id=i, c=c, expect={})) + "\n")
+
+
+def table_replay(pid, wd, path, parts):
+    """Re-executes the saved violating cases on the current code and re-judges them."""
+    bad = 0
+    binp = go_build(wd)
+    for module, sub, prefixes in parts:
+        src = os.path.join(path, f"{module}.cases.ndjson")
+        if not os.path.exists(src):
+            continue
+        shutil.copy(src, wd)
+        rc, out = run([binp, sub, "-in", f"{module}.cases.ndjson", "-out", "obs.ndjson"], wd)
+        if rc != 0:
+            raise Inconclusive(out[-2000:])
+        t = tlc(wd, f"{module}Trace.tla", cfg=f"{module}Trace_quick.cfg", timeout=1800, outfile=f"{module}.trace.out")
+        obs = read_ndjson(os.path.join(wd, "obs.ndjson"))
+        for v in tlc_lines(os.path.join(wd, f"{module}.trace.out"), "VIOL"):
+            rules = [r for r in v["rules"] if r.startswith(prefixes)]
+            if rules:
+                bad += 1
+                log(f"  case {v['id']}: {rules} :: {json.dumps(obs[v['line'] - 1])[:700]}")
+    log(f"[{pid}] replay of {path}: {bad} cases still violate a rule on the current code")
+    if bad:
+        log(f"VIOLATION property={pid} replay={path}")
+        return 1
+    return 0
+
+
+def merge_evidence(pid, tier, seed, t0, parts, tables, new, known, assumptions):
+    """parts: coverage dict of the OP-family part (or None); tables: list of table_run results."""
+    cov = dict(parts or {})
+    cov["tables"] = [dict(design=t["design"], cases_executed_on_real_code=t["cases"], rule_failures=len(t["viols"]),
+                          divergences_total=t["divergences_total"], divergences=t["divergences"][:10], coverage=t["coverage"],
+                          samples=t["samples"]) for t in tables]
+    cov["states"] = cov.get("states", 0) + sum(t["design"]["states"] for t in tables)
+    cov["transitions"] = cov.get("transitions", 0) + sum(t["design"]["transitions"] for t in tables)
+    cov["evaluations"] = cov.get("evaluations", 0) + sum(t["cases"] for t in tables)
+    cov["distinct_nontrivial"] = cov.get("distinct_nontrivial", 0) + sum(t["cases"] for t in tables)
+    cov["traces_validated_against_impl"] = cov.get("traces_validated_against_impl", 0) + sum(t["cases"] for t in tables)
+    cov.setdefault("samples", [])
+    cov.setdefault("rule", "table cases = abstract cases exported by TLC from the design run, each executed once on the real code")
+    cov["known_findings_seen"] = known
+    cov.setdefault("exhaustive", False)
+    write_evidence(pid, tier, seed, "model_checking", cov, time.time() - t0, new, assumptions=assumptions)
+
+
+def c03_sig(o):
+    u, r = o["c"]["uri"], o["c"]["reg"]
+    return f"{r['app']}:{u['scheme']}:{'loopback' if u['host'] in ('localhost', '127.0.0.1', '::1') else 'host'}:ui={u['ui']}:frag={u['frag']}:defect={o['c']['defect']}"
+
+
+def c03_need(o):
+    return [f"F:{o['o']['F']}", f"P:{o['o']['P']['class']}", f"L:{o['o']['L']['class']}"]
+
+
+def c03_check(pid, tier, seed, replay=None):
+    import opfamily
+    t0 = time.time()
+    wd = workdir(pid)
+    try:
+        if tier == "replay":
+            if os.path.exists(os.path.join(replay, "trace.ndjson")):
+                return opfamily.op_replay(pid, wd, replay, opfamily.FAMILY[pid])
+            return table_replay(pid, wd, replay, [("RedirectURI", "tbl-redirect", ("C03.",))])
+        part = opfamily.op_part(pid, tier, seed, wd, opfamily.FAMILY[pid])
+        tb = table_run(pid, "RedirectURI", "tbl-redirect", tier, seed, wd, ("C03.",), c03_sig, need=c03_need, label="redirect-URI table")
+        for k in ("F:ok", "F:refused", "P:login", "P:page", "P:redirErr", "L:login", "L:json"):
+            if not tb["coverage"].get(k):
+                raise Inconclusive(f"vacuous table run: no observation {k}")
+        new, known = report(pid, tb["viols"], lambda v: v["signature"],
+                            lambda v: dict(rule=v["rule"], module=v["module"], id=v["id"], case=v["case"], observed=v["observed"]),
+                            wd, [], seed, tier, extra_save=write_cases)
+        merge_evidence(pid, tier, seed, t0, part["coverage"], [tb], part["new"] + new, part["known"] + known,
+                       part["assumptions"] + ["URI components are concretised injectively (harness/tbldrv/redirect.go); glob semantics = doublestar on the three patterns of the model"])
+        return 1 if (part["new"] + new) else 0
+    finally:
+        cleanup(wd)
+
+
+CHECKS = {"C03": c03_check}
